@@ -427,6 +427,7 @@ def run(ctx):
     progs.append((open(os.path.join(core.VERIF, 'rt', 'idioms_exec2.c')).read(), {'hand-written-idioms-2'}, 'idiom-exec'))
     progs.append((open(os.path.join(core.VERIF, 'rt', 'idioms_exec3.c')).read(), {'hand-written-idioms-3'}, 'idiom-exec'))
     progs.append((open(os.path.join(core.VERIF, 'rt', 'idioms_exec4.c')).read(), {'hand-written-idioms-4'}, 'idiom-exec'))
+    progs.append((open(os.path.join(core.VERIF, 'rt', 'idioms_exec5.c')).read(), {'hand-written-idioms-5'}, 'idiom-exec'))
     ctx.count('programs', n)
     results = core.pmap(run_case, [(i, cc, work, p[0]) for i, p in enumerate(progs)], chunksize=8)
     for idx, verdict, r in results:
